@@ -12,9 +12,109 @@ from typing import Any, Dict, Iterable, List, Optional
 
 from harness.core import Case, Check, Finding, call, canon, err_name, short
 
+# The column names of the STATEMENT (document id, region id, line id, text, the three boxes): the oracle's own
+# vocabulary.  They are what the oracle expects to find in the records, whatever the code says; the lists the CODE
+# uses by default (writer: `headers=None`, reader: `line_file_headers=None`) are never taken from here for the
+# model: the model gets `null` and uses the tables regenerated from the source (Generated/C14.lean), see
+# `src_tables` / `C14.translate`.
 BASE = ['doc_id', 'textregion_id', 'line_id', 'text']
 BOXES = ['doc_box', 'textregion_box', 'line_box']
 ALL = BASE + BOXES
+
+TH = 'pagexml/helper/text_helper.py'
+PH = 'pagexml/helper/pagexml_helper.py'
+_TABLES: Dict[str, Any] = {}
+
+
+def src_tables() -> Dict[str, Any]:
+    """the string tables of the line format as the source states them NOW (read with `ast`, never imported):
+      writer_default  make_line_format_file: `headers = [...]` under `if headers is None:`
+      reader_base     LineReader._iter_from_line_file: `self.line_file_headers = [...]` in the branch
+                      `elif self.line_file_headers is None:` of `if self.has_headers is True:`
+      reader_box      … `self.line_file_headers.extend([...])` under `if self.add_bounding_box is True:` there
+      record_keys     get_line_format_json: keys of the dict display `json_doc = {...}`
+      record_box_keys … `json_doc['…'] = …` under `if add_bounding_box is True:`
+      rebuild_keys / rebuild_box_keys   read_pagexml_docs_from_line_file: `line_dict['…']` read outside / inside
+                      `if add_bounding_box is True:` (first occurrences, in source order)
+      legacy_seps     write_pagexml_to_line_format: the literal text after each of the three fields of the
+                      f-string that is written
+    Unrecognised shapes raise TranslateError."""
+    from harness import translate as tr
+    from harness.core import REPO
+    if _TABLES.get('repo') == REPO and 'tables' in _TABLES:
+        return _TABLES['tables']
+    E = tr.TranslateError
+    t: Dict[str, Any] = {}
+    # --- writer default
+    t['writer_default'] = tr.the_assigned_str_list(TH, 'make_line_format_file', 'headers',
+                                                   (('headers is None', 'body'),))[0]
+    # --- reader defaults
+    fn = 'LineReader._iter_from_line_file'
+    g_base = (('self.has_headers is True', 'orelse'), ('self.line_file_headers is None', 'body'))
+    base = tr.the_assigned_str_list(TH, fn, 'self.line_file_headers', g_base)
+    ext = tr.method_str_list_calls(TH, fn, 'self.line_file_headers', 'extend')
+    if len(ext) != 1 or ext[0][0] is None or ext[0][1] != g_base + (('self.add_bounding_box is True', 'body'),) \
+            or ext[0][2] <= base[2]:
+        raise E(f'{TH}:{fn}: expected `self.line_file_headers.extend([...])` once, after the default list, under '
+                f'`if self.add_bounding_box is True:`; found {[(v, list(g), ln) for v, g, ln in ext]!r}')
+    t['reader_base'], t['reader_box'] = base[0], ext[0][0]
+    # --- record keys
+    fn = 'get_line_format_json'
+    keys = tr.dict_literal_keys(TH, fn, 'json_doc')
+    if keys[1] != ():
+        raise E(f'{TH}:{fn}: the record `json_doc = {{...}}` is built under a condition: {list(keys[1])!r}')
+    stores = tr.subscript_stores(TH, fn, 'json_doc')
+    for k, g, ln in stores:
+        if g != (('add_bounding_box is True', 'body'),) or ln <= keys[2]:
+            raise E(f'{TH}:{fn}: `json_doc[{k!r}] = …` at line {ln} is not under `if add_bounding_box is True:` '
+                    f'after the record is built ({list(g)!r})')
+    t['record_keys'], t['record_box_keys'] = keys[0], [k for k, _, _ in stores]
+    # --- keys looked up when documents are rebuilt
+    fn = 'read_pagexml_docs_from_line_file'
+    plain, boxed = [], []
+    for k, g, ln in tr.subscript_loads(TH, fn, 'line_dict'):
+        tests = [x for x in g if x[0] == 'add_bounding_box is True']
+        if any(b != 'body' for _, b in tests):
+            raise E(f'{TH}:{fn}: `line_dict[{k!r}]` at line {ln} is read in the else-branch of the box test')
+        (boxed if tests else plain).append(k)
+    if tr.subscript_stores(TH, fn, 'line_dict'):
+        raise E(f'{TH}:{fn}: `line_dict[...]` is assigned to')
+    t['rebuild_keys'], t['rebuild_box_keys'] = tr.dedupe(plain), tr.dedupe(boxed)
+    # --- the older three-column format: f"{doc_id}\t{line_id}\t{line_text}\n"
+    fn = 'write_pagexml_to_line_format'
+    parts = tr.fstring_parts(PH, fn, 'write')
+    kinds = [k for k, _ in parts]
+    if kinds != ['name', 'lit', 'name', 'lit', 'name', 'lit']:
+        raise E(f'{PH}:{fn}: the written f-string is not three fields each followed by literal text: {parts!r}')
+    import ast
+    fdef = tr.find_def(tr.parse_file(PH), fn)
+    loops = [n for n in ast.walk(fdef) if isinstance(n, ast.For) and isinstance(n.target, ast.Tuple)
+             and all(isinstance(e, ast.Name) for e in n.target.elts)
+             and isinstance(n.iter, ast.Call) and tr._callee_name(n.iter) == 'pagexml_to_line_format']
+    if len(loops) != 1 or [e.id for e in loops[0].target.elts] != [v for k, v in parts if k == 'name']:
+        raise E(f'{PH}:{fn}: the fields of the f-string are not the (doc id, line id, text) triple of '
+                f'pagexml_to_line_format, in that order')
+    t['legacy_seps'] = [v for k, v in parts if k == 'lit']
+    _TABLES['repo'], _TABLES['tables'] = REPO, t
+    return t
+
+
+def writer_default() -> List[str]:
+    """the columns `make_line_format_file(headers=None)` writes, as the source says (for choosing inputs and for the
+    oracle's "columns that were written"; on an unreadable source: the statement's columns)"""
+    try:
+        return list(src_tables()['writer_default'])
+    except Exception:
+        return list(ALL)
+
+
+def reader_default(bbox: bool) -> List[str]:
+    """the columns a `LineReader` assumes on headerless files when no headers are supplied, as the source says"""
+    try:
+        t = src_tables()
+        return list(t['reader_base']) + (list(t['reader_box']) if bbox else [])
+    except Exception:
+        return BASE + (BOXES if bbox else [])
 
 
 # ------------------------------------------------------------------------------------------
@@ -349,15 +449,19 @@ def _valid_config(rng, docs, xml_safe) -> Dict[str, Any]:
         rng.shuffle(headers)
     else:
         headers = rng.sample(full, rng.randint(1, len(full)))
-    hs = headers if headers is not None else list(ALL)
+    # `headers=None`: the writer's own default applies (never copied for the model); the harness only needs to
+    # know what the source says it is in order to choose a matching way of reading the files back
+    hs = headers if headers is not None else writer_default()
     modes = ['has_headers', 'explicit']
-    if hs == full:
+    # headerless files read with the reader's default columns: the columns have to be written in the reader's
+    # default order (as the source states it); what the writer writes by default (with boxes) must always qualify
+    if hs == reader_default(bbox) or headers is None:
         modes.append('default')
     inp = {'docs': docs, 'outer': rng.random() < 0.4, 'bbox': bbox, 'headers': headers,
            'read_mode': rng.choice(modes), 'split': _split(rng, len(docs)),
            'groupby': rng.choice([None] + [h for h in ('doc_id', 'textregion_id') if h in hs]),
            'files_route': xml_safe, 'shape': rng.choice([0, 0, 1, 2]),
-           'as_str': rng.random() < 0.2, 'rebuild': bbox and sorted(hs) == sorted(ALL)}
+           'as_str': rng.random() < 0.2, 'rebuild': bbox and (headers is None or sorted(hs) == sorted(ALL))}
     if inp['read_mode'] == 'explicit':
         inp['explicit_has_headers_flag'] = rng.random() < 0.5
     return inp
@@ -368,11 +472,16 @@ def _tags_rt(inp) -> List[str]:
     why = _in_quantifier(docs)
     tags = []
     full = BASE + (BOXES if inp['bbox'] else [])
-    hs = inp.get('headers') if inp.get('headers') is not None else list(ALL)
-    cfg_ok = (len(hs) > 0 and len(set(hs)) == len(hs) and all(h in full for h in hs)
-              and (inp.get('read_mode') != 'default' or hs == full)
+    explicit = inp.get('headers')
+    hs = explicit if explicit is not None else writer_default()
+    # the columns: an explicit list has to be a non-empty duplicate-free list of columns the records have; the
+    # writer's own default (`headers=None`) is within the statement whenever the box columns are on, whatever it is
+    cols_ok = (inp['bbox'] if explicit is None
+               else len(hs) > 0 and len(set(hs)) == len(hs) and all(h in full for h in hs))
+    cfg_ok = (cols_ok
+              and (inp.get('read_mode') != 'default' or explicit is None or hs == reader_default(inp['bbox']))
               and inp.get('rebuild_bbox', True)
-              and (not inp.get('rebuild') or sorted(hs) == sorted(ALL))
+              and (not inp.get('rebuild') or explicit is None or sorted(hs) == sorted(ALL))
               and (not inp.get('groupby') or inp['groupby'] in hs))
     if why is None and cfg_ok and _ids_distinct(docs, inp['outer']) and _ids_distinct(docs, not inp['outer']):
         tags.append('valid')
@@ -451,11 +560,19 @@ def _corpus() -> List[Case]:
             for mode in ('has_headers', 'explicit', 'default'):
                 for g in (None, 'doc_id', 'textregion_id'):
                     # past failures: in-memory route (92afc65), explicit headers (9041466)
-                    out.append(_rt({'docs': [nested, second], 'outer': outer, 'bbox': bbox, 'headers': list(full),
+                    out.append(_rt({'docs': [nested, second], 'outer': outer, 'bbox': bbox,
+                                    'headers': reader_default(bbox) if mode == 'default' else list(full),
                                     'read_mode': mode, 'split': [1, 1] if mode != 'default' else None, 'groupby': g,
                                     'files_route': True, 'rebuild': bbox}, ['corpus']))
             out.append(_rt({'docs': [edge], 'outer': outer, 'bbox': bbox, 'headers': list(reversed(full)),
                             'read_mode': 'has_headers', 'groupby': 'textregion_id', 'rebuild': bbox}, ['corpus']))
+    # the defaults of the code on both sides (`headers=None` for the writer; header line / the same list passed
+    # explicitly / nothing at all for the reader): the model gets `null` and uses the regenerated tables
+    for outer in (False, True):
+        for mode in ('has_headers', 'explicit', 'default'):
+            out.append(_rt({'docs': [nested, second], 'outer': outer, 'bbox': True, 'headers': None, 'read_mode': mode,
+                            'split': [1, 1], 'groupby': 'doc_id' if outer else None, 'rebuild': True},
+                           ['corpus', 'code-defaults']))
     # regression (C14:flat-line-box, fixed by fc690f6): first line of a region with a flat box
     flat = _D('f', subs=[_R('r', [_L('l1', 'x', [1, 2, 29, 0])])])
     out.append(_rt({'docs': [flat], 'outer': False, 'bbox': True, 'headers': None, 'read_mode': 'has_headers',
@@ -503,7 +620,8 @@ def _enumeration(tier) -> List[Case]:
                 full = BASE + (BOXES if bbox else [])
                 use = modes if tier != 'quick' else [modes[(ci + outer + 2 * bbox) % 3]]
                 for mode in use:
-                    out.append(_rt({'docs': [d, d2], 'outer': outer, 'bbox': bbox, 'headers': list(full),
+                    out.append(_rt({'docs': [d, d2], 'outer': outer, 'bbox': bbox,
+                                    'headers': reader_default(bbox) if mode == 'default' else list(full),
                                     'read_mode': mode, 'groupby': ['doc_id', 'textregion_id', None][ci % 3],
                                     'files_route': tier != 'quick' or ci % 4 == 0, 'rebuild': bbox,
                                     'split': [1, 1] if ci % 2 else None}, ['enum']))
@@ -841,7 +959,15 @@ class C14(Check):
         'without any line write no record, hence are not rebuilt ("one region per region id written"). Lines carry no '
         'Word children and documents no region-level text (word counts come from text.split(\' \')). The older '
         'three-column format of pagexml_helper.py is mirrored by the model and judged only for ids and non-empty '
-        'texts without edge whitespace (it writes None as "None" and strips lines).')
+        'texts without edge whitespace (it writes None as "None" and strips lines). String tables: the default header '
+        'lists of make_line_format_file and LineReader, the record keys of get_line_format_json, the keys looked up by '
+        'read_pagexml_docs_from_line_file and the separators of the older format are regenerated from the source on '
+        'every run (Generated/C14.lean); the model\'s default header lists ARE the regenerated ones (a consistent '
+        'reordering of the defaults is followed), the seven column names of the statement are tied to the regenerated '
+        'keys by the obligations C14_consts_record_keys / C14_consts_rebuild_keys, and the relations the theorems need '
+        'of the defaults are the other C14_consts_* theorems (decided on the tables). Records read from files are '
+        'stated in the order of the header list and proved to be the same dictionary (List.Perm) as the in-memory '
+        'record; equal as lists when the reader default is in record-key order (C14_routes_agree_same_order).')
     assumptions = [
         'gzip.open(..., "wt"/"rt") is the identity on text; reading translates \\r\\n and \\r to \\n (universal newlines)',
         'str.strip()/isspace: whitespace set sent per request from the running CPython (ws); column names contain none',
@@ -856,6 +982,41 @@ class C14(Check):
         # outputs of the real code per case: the model requests for reading take the files that
         # the real writer produced as their input (run_check calls impl() before requests())
         self._outs: Dict[int, Any] = {}
+
+    # ------------------------------------------------------------------ tables regenerated from the source
+    def translate(self):
+        """the column-name tables of text_helper.py (default header lists of writer and reader, record keys, the
+        keys looked up when documents are rebuilt) and the separators of the older format of pagexml_helper.py,
+        read from the working tree with `ast` on every run (see `src_tables`)"""
+        from harness import translate as tr
+        t = src_tables()
+        tab = tr.lean_chars_table
+        body = tr.HEADER.format(
+            src=f'{TH}: default header list of make_line_format_file, default header lists of '
+                f'LineReader._iter_from_line_file, record keys of get_line_format_json, keys read by '
+                f'read_pagexml_docs_from_line_file; {PH}: f-string written by write_pagexml_to_line_format') + (
+            'namespace Pagexml.Generated.C14\n\n'
+            + tab('writerDefaultHeaders', 'make_line_format_file: `headers = [...]` under `if headers is None:`',
+                  t['writer_default']) + '\n'
+            + tab('readerDefaultHeaders', 'LineReader._iter_from_line_file: `self.line_file_headers = [...]` when no '
+                  'header line is read and no headers were supplied', t['reader_base']) + '\n'
+            + tab('readerBoxHeaders', '… `self.line_file_headers.extend([...])` under '
+                  '`if self.add_bounding_box is True:`', t['reader_box']) + '\n'
+            + tab('recordKeys', 'get_line_format_json: keys of the dict display `json_doc = {...}`, in order',
+                  t['record_keys']) + '\n'
+            + tab('recordBoxKeys', '… keys of `json_doc[key] = …` under `if add_bounding_box is True:`, in order',
+                  t['record_box_keys']) + '\n'
+            + tab('rebuildKeys', 'read_pagexml_docs_from_line_file: keys of `line_dict[key]` read outside '
+                  '`if add_bounding_box is True:` (first occurrences, in source order)', t['rebuild_keys']) + '\n'
+            + tab('rebuildBoxKeys', '… read inside `if add_bounding_box is True:`', t['rebuild_box_keys']) + '\n'
+            + '/-- write_pagexml_to_line_format: literal text after the document id of f"{doc_id}…{line_id}…{line_text}…" -/\n'
+            + f'def legacySepAfterDocId : List Char := {tr.lean_chars(t["legacy_seps"][0])}\n\n'
+            + '/-- … after the line id -/\n'
+            + f'def legacySepAfterLineId : List Char := {tr.lean_chars(t["legacy_seps"][1])}\n\n'
+            + '/-- … after the text -/\n'
+            + f'def legacyLineEnd : List Char := {tr.lean_chars(t["legacy_seps"][2])}\n\n'
+            + 'end Pagexml.Generated.C14\n')
+        return {'PagexmlModel/Generated/C14.lean': body}
 
     # ------------------------------------------------------------------ implementation
     def impl(self, case: Case) -> Any:
@@ -919,7 +1080,7 @@ class C14(Check):
                 contents.append(c)
             out['write'] = werr if werr else {'ok': contents}
             if werr is None and paths:
-                hs = headers if headers is not None else list(ALL)
+                hs = headers if headers is not None else writer_default()
                 kw = dict(add_bounding_box=bbox)
                 if mode == 'has_headers':
                     kw['has_headers'] = True
@@ -1063,7 +1224,7 @@ class C14(Check):
             if 'ok' in w and w['ok']:
                 files = w['ok']
                 mode = inp.get('read_mode', 'has_headers')
-                hs = inp.get('headers') if inp.get('headers') is not None else list(ALL)
+                hs = inp.get('headers') if inp.get('headers') is not None else writer_default()
                 args = {'files': files, 'bbox': inp['bbox'], 'outer': inp['outer'], 'ws': _ws(*files)}
                 if mode == 'has_headers':
                     args.update(has_headers=True, headers=None)
@@ -1283,7 +1444,9 @@ class C14(Check):
                                        f'{short(exp, 300)}')
         # (2) the line-file route yields identical records (missing text reads back as empty)
         w = out.get('write', {})
-        hs = inp.get('headers') if inp.get('headers') is not None else list(ALL)
+        # the columns that were written: the explicit list, or (headers=None) what the source says the writer's
+        # default is; the values expected in them come from the documents under the statement's column names
+        hs = inp.get('headers') if inp.get('headers') is not None else writer_default()
         full = sorted(hs) == sorted(BASE + (BOXES if bbox else []))
         if 'err' in w:
             bad('write:error', f'writing the line file raised {w}')
@@ -1292,7 +1455,7 @@ class C14(Check):
             if 'ok' not in lf:
                 bad(f'lf-route:error:{inp.get("read_mode")}', f'reading the line file back raised {lf}')
             else:
-                want = [{h: _norm(r)[h] for h in hs} for r in exp]
+                want = [{h: _norm(r).get(h) for h in hs} for r in exp]
                 if lf['ok'] != want:
                     bad(f'lf-route:records:{inp.get("read_mode")}',
                         f'line file reads back as {short(lf["ok"], 300)}, written from {short(want, 300)}')
